@@ -56,6 +56,10 @@ CHECKS = {
                   {"quick": dict(shards=16, timeout=600), "thorough": dict(shards=16, timeout=3000, budget=1500)},
                   assumptions=["the console behind the terminal is a reference cell-grid console (the shipped drivers are bound in C18/C19)",
                                "printable alphabet {a} for fixed-point search, {a,b} for depth-bounded search; colours are the console defaults (the terminal never changes its current colours)"]),
+    "C04": kernel("mm/vmm", {"harness/vmm/vf_mmu_test.go": K + "mm/vmm/zz_verif_mmu_test.go", "harness/vmm/c04_test.go": K + "mm/vmm/zz_verif_c04_test.go"}, "TestVerifC04", "model_checking",
+                  {"quick": dict(shards=16, timeout=900), "thorough": dict(shards=16, timeout=3400, budget=2400)},
+                  assumptions=["page tables live in a simulated RAM arena; the MMU is a software walk bound to the ptePtrFn/nextAddrFn/activePDTFn/switchPDTFn seams (present-bit semantics and recursive mapping only; no TLB, caching attributes or accessed/dirty side effects)",
+                               "pages, frames and flag sets come from small alphabets chosen for table sharing and field extremes; the recursive slot (P4 index 511) is outside the contract"]),
     "C07": kernel("mm/vmm", {"harness/c07/c07_test.go": K + "mm/vmm/zz_verif_c07_test.go"}, "TestVerifC07", "model_checking",
                   {"quick": dict(shards=4, timeout=300), "thorough": dict(shards=4, timeout=1200)},
                   assumptions=["sizes are drawn from a 16-value alphabet relative to the current cursor (0, 1, page-1, page, page+1, 3 pages, cursor-page, cursor-1, cursor, cursor+1, cursor+page, 2^63, 2^64-4096, 2^64-4095, 2^64-101, 2^64-1)",
